@@ -92,10 +92,10 @@ def run_c05(tier):
     r = vlib.run_tlc("Wal", "loop_split.cfg", cfg_text=vlib.cfg_text(dict(LOOP_BASE, Deviations='{"LoopSplitsRequest"}'), invariants=["InFlightAtomic"], view="View"),
                      timeout=1500, heap="16g")
     res.tlc(r, "Wal/loop_split/InFlightAtomic(expected to fail)")
-    scripts, r = W.gen_scripts(rng, 12)
+    scripts, r = W.gen_scripts(rng, 60 if quick else 300)
     res.tlc(r, "WalClient(simulate)")
-    rng.shuffle(scripts)
-    scripts = scripts[:(4 if quick else 30)]
+    scripts, covered = W.pick_scripts(rng, scripts, 4 if quick else 30)
+    res.cov["script_features_covered"] = sorted(covered)
     runs = []
     hooks = {}
     for si, script in enumerate(scripts):
@@ -125,7 +125,13 @@ def run_c05(tier):
     for si, x in enumerate(runs):
         pts = W.kill_points(x["events"])
         if len(pts) > (40 if quick else 400):
-            keep = set(rng.sample(pts, 40 if quick else 400))
+            # always: the point right after every acknowledgement and the last point; the rest sampled
+            must = {pts[-1]}
+            for i, e in enumerate(x["events"]):
+                if e["k"] == "mark" and " done " in e["text"]:
+                    must.add(min([p for p in pts if p > i], default=pts[-1]))
+            rest = [p for p in pts if p not in must]
+            keep = must | set(rng.sample(rest, max(0, min(len(rest), (40 if quick else 400) - len(must)))))
             pts = [p for p in pts if p in keep]
         obs = W.run_images(binary, x["events"], pts, x["conc"], "c05_%d" % si)
         for j in pts:
@@ -164,10 +170,10 @@ def run_c35(tier):
     res.tlc(r, "Wal/inline_clean")
     if r["violated"]:
         raise Undecided("MODEL-DRIFT: CleanWhenCheckpointed fails in the inline model")
-    scripts, r = W.gen_scripts(rng, 14)
+    scripts, r = W.gen_scripts(rng, 60 if quick else 300)
     res.tlc(r, "WalClient(simulate)")
-    rng.shuffle(scripts)
-    scripts = scripts[:(6 if quick else 40)]
+    scripts, covered = W.pick_scripts(rng, scripts, 6 if quick else 40)
+    res.cov["script_features_covered"] = sorted(covered)
     hooks = {}
     n = 0
     for si, script in enumerate(scripts):
